@@ -45,7 +45,8 @@ try:
     rc, o = sh(['/venv/bin/python', demo], cwd=wt, timeout=300)
     out['demo_patched_rc'] = rc
     out['demo_patched_tail'] = o[-300:]
-    # pinned suite (guard env off)
+    # pinned suite (guard env off); the demo files must not be collected
+    shutil.rmtree(os.path.join(wt, 'seeded'), ignore_errors=True)
     tenv = {k: v for k, v in os.environ.items() if k not in ('OMP_NUM_THREADS', 'MKL_NUM_THREADS')}
     xml = os.path.join(wt, 'junit.xml')
     sh(['/venv/bin/python', '-m', 'pytest', '-q', '-p', 'no:cacheprovider', '--timeout=900',
